@@ -225,13 +225,29 @@ impl Check for C14 {
         "case = one saved output of a generated history (rotating: document with DEFLATE, document without, save followed by incremental changes, a single change chunk, a compressed change chunk, a bundle); EVERY single-bit flip of the file is enumerated (thorough: plus a sample of byte overwrites): load() must return an error; Ok(document identical to the original) is reported separately as 'accepted-unchanged', Ok(different document) and panics are violations. Exhaustive per file for single-bit flips. Non-trivial = every flip; distinct by (file, bit).".into()
     }
     fn required_counters(&self) -> Vec<&'static str> {
-        vec!["flips_enumerated", "rejected", "files", "kind_doc-deflate", "kind_doc-plain", "kind_doc-plus-incremental", "kind_change", "kind_bundle"]
+        vec!["flips_enumerated", "rejected", "files", "files_with_deflated_column", "kind_doc-deflate", "kind_doc-plain", "kind_doc-plus-incremental", "kind_change", "kind_bundle"]
     }
     fn run_case(&self, cx: &mut Ctx, case: u64, rng: &mut Rng) {
         let enc = enc_for(rng);
         let mut corpus = build_corpus(rng, enc, rng.clone().range(3, cx.tier.pick(14, 60)));
         let (kind, file): (&str, Vec<u8>) = match case % 6 {
-            0 => ("doc-deflate", corpus.docs[0].bytes.clone()),
+            0 => {
+                // make sure at least one column really is DEFLATE-compressed (columns are only
+                // compressed from 256 bytes up): a 300-character value that compresses well
+                let mut d = corpus.world.docs[0].clone();
+                {
+                    use automerge::transaction::Transactable;
+                    let pad: String = (0..300).map(|i| char::from(b'a' + ((i / 7) % 5) as u8)).collect();
+                    let _ = d.put(automerge::ROOT, "pad", pad);
+                    d.commit();
+                }
+                let bytes = d.save();
+                let deflated = doc_layout(&bytes).map(|l| l.change_cols.iter().chain(l.op_cols.iter()).any(|c| c.spec & 0x08 != 0)).unwrap_or(false);
+                if deflated {
+                    cx.count("files_with_deflated_column");
+                }
+                ("doc-deflate", bytes)
+            }
             1 => ("doc-plain", corpus.docs[1].bytes.clone()),
             2 => ("doc-plus-incremental", corpus.docs[2].bytes.clone()),
             3 => ("change", rng.pick(&corpus.changes).bytes.clone()),
